@@ -50,7 +50,11 @@ def run(rep, tier, seed):
     rng = random.Random(seed + 9)
     for _ in range(2500 if tier == "quick" else 80000):
         t = gd.spec_tree_recipe(rng, depth=rng.choice([0, 0, 1, 2, 3]), kinds=gd.kinds_for(rng))
-        out, dsl = outcome_of(lambda: gen.build_tree(t))
+        if rng.random() < 0.15:
+            from harness.props.c14 import duplicate_operand
+            t = duplicate_operand(rng, t)              # e.g. {"xor": [c, c]} against c ^ c
+        use_ops = rng.random() < 0.5                   # the DSL expression: python operators or the classes
+        out, dsl = outcome_of(lambda: gen.build_tree(t, operators=use_ops))
         if dsl is None:
             continue
         try:
